@@ -139,7 +139,7 @@ impl Prop for Compose {
         900
     }
     fn cases(&self, tier: Tier) -> u64 {
-        tier.pick(8_000, 300_000)
+        tier.pick(24_000, 600_000)
     }
     fn generate(&self, g: &mut Gen) -> Case {
         let nz = g.range(1, 5);
